@@ -384,3 +384,123 @@ fn u_deserialize_rawnumber_n7() {
     core::mem::forget(r);
     core::mem::forget(de);
 }
+
+// ---- M-map: one step of MapAccess::next_key_seed + next_value_seed ---------------------------------
+
+static mut STR_END_T: [u8; 13] = [0; 13];
+static mut STR_ESC_T: [bool; 13] = [false; 13];
+
+fn setup_strings<const N: usize>(b: &[u8; N], n: usize) {
+    unsafe {
+        let mut i = 0;
+        while i <= N {
+            let j = if i < n { i } else { n };
+            match ref_string_end(b, n, j) {
+                Some(e) => {
+                    STR_END_T[i] = e as u8;
+                    STR_ESC_T[i] = ref_has_backslash(b, j, e);
+                }
+                None => STR_END_T[i] = 0,
+            }
+            i += 1;
+        }
+    }
+}
+
+/// parse_str restricted to escape-free keys (justified by u_parse_string_raw_borrowed_n8)
+fn model_parse_str<'de, 'own, R: Reader<'de>>(
+    p: &mut Parser<R>,
+    _buf: &'own mut Vec<u8>,
+) -> Result<Reference<'de, 'own, str>> {
+    let b = p.read.as_u8_slice();
+    let n = b.len();
+    let i = p.read.index();
+    let e = if i <= n { unsafe { STR_END_T[i] as usize } } else { 0 };
+    if e > i && e <= n {
+        kani::assume(!unsafe { STR_ESC_T[i] });
+        p.read.set_index(e);
+        Ok(Reference::Borrowed(as_str(p.read.slice_unchecked(i, e - 1))))
+    } else {
+        p.read.set_index(n);
+        Err(crate::error::verif_kani_error::syntax_cut(ErrorCode::InvalidJsonValue, b, i))
+    }
+}
+
+/// C02 M-map: from every (first, position) in every buffer of length <= N the serde map access
+/// yields a key iff a member introduced by a correct separator follows (a trailing comma before
+/// `}` is an error), then the value after a colon (abstract recogniser E), signals the end iff
+/// `}` follows (left for end_map), and fails otherwise.
+#[kani::proof]
+#[kani::unwind(10)]
+#[kani::stub(crate::error::Error::syntax, crate::error::verif_kani_error::syntax_cut)]
+#[kani::stub(crate::parser::Parser::skip_space, model_skip_space)]
+#[kani::stub(crate::parser::Parser::skip_one, model_skip_one)]
+#[kani::stub(crate::parser::Parser::parse_str, model_parse_str)]
+fn m_map_next_entry_n8() {
+    const N: usize = 8;
+    let buf: [u8; N] = kani::any();
+    let n: usize = kani::any();
+    kani::assume(n <= N);
+    setup_vals::<N>();
+    setup_strings(&buf, n);
+    let start: usize = kani::any();
+    kani::assume(start <= n);
+    let first0: bool = kani::any();
+    let mut de = Deserializer::new(Read::new(&buf[..n], false));
+    de.parser.read.set_index(start);
+    let mut acc = MapAccess { de: &mut de, first: first0 };
+    let k = de::MapAccess::next_key_seed(&mut acc, std::marker::PhantomData::<IgnoredAny>);
+    // reference for the key step: 0 = error, 1 = end at i, 2 = key ending at ke
+    let i = ref_skip_ws(&buf, n, start);
+    let mut exp = (0u8, 0usize);
+    if i < n {
+        if buf[i] == b'}' {
+            exp = (1, i);
+        } else {
+            let mut at = i;
+            let mut sep_ok = first0;
+            if !first0 && buf[i] == b',' {
+                at = ref_skip_ws(&buf, n, i + 1);
+                sep_ok = true;
+            }
+            if sep_ok && at < n && buf[at] == b'"' {
+                let e = unsafe { STR_END_T[at + 1] as usize };
+                if e > at + 1 && e <= n {
+                    exp = (2, e);
+                }
+            }
+        }
+    }
+    match (&k, exp.0) {
+        (Ok(None), 1) => {
+            assert_eq!(acc.de.parser.read.index(), exp.1);
+        }
+        (Ok(Some(_)), 2) => {
+            assert_eq!(acc.de.parser.read.index(), exp.1);
+            assert!(!acc.first);
+            // value step: colon, then one value by E
+            let v = de::MapAccess::next_value_seed(&mut acc, std::marker::PhantomData::<IgnoredAny>);
+            let c = ref_skip_ws(&buf, n, exp.1);
+            let mut vexp: Option<usize> = None;
+            if c < n && buf[c] == b':' {
+                let vs = ref_skip_ws(&buf, n, c + 1);
+                vexp = unsafe { val_end(&buf, n, vs) };
+            }
+            match (&v, vexp) {
+                (Ok(_), Some(ve)) => assert_eq!(acc.de.parser.read.index(), ve),
+                (Err(_), None) => {}
+                _ => panic!("MapAccess::next_value_seed differs from the member grammar"),
+            }
+            kani::cover!(v.is_ok());
+            kani::cover!(v.is_err());
+            core::mem::forget(v);
+        }
+        (Err(_), 0) => {}
+        _ => panic!("MapAccess::next_key_seed differs from the object grammar"),
+    }
+    kani::cover!(exp.0 == 2 && !first0);
+    kani::cover!(exp.0 == 1);
+    kani::cover!(exp.0 == 0 && !first0 && start < n && i < n && buf[i] == b',');
+    core::mem::forget(k);
+    core::mem::forget(de);
+}
